@@ -54,6 +54,9 @@ structure Call where
   from the channel of port `rx` — NOT from its own record — so a cross-wired caller (`rx ≠ p`)
   is expressible; `C09.caller_reads_own_port` proves it never happens. -/
   rx : Nat
+  /-- `multi_call`: the index `i` of `rx_ports.into_iter().enumerate()` threaded into this member's
+  receiver task (`(i, result)`): where its result is written in the result vector. 0 for other calls. -/
+  slot : Nat := 0
   deriving Repr, DecidableEq
 
 inductive Item where
@@ -91,10 +94,14 @@ structure S where
   mreqs : List (List Nat) := []
   /-- ghost: every forward `call_and_forward` attempted: (call, target, value, target accepted it) -/
   fwdlog : List (Nat × Nat × Nat × Bool) := []
+  /-- the result vector of each `multi_call` (`results.resize_with(n, …)` then `results[i] = r` as the
+  members complete, in completion order); `none` = not written yet -/
+  mresults : List (List (Option Res)) := []
   deriving Repr
 
 def init : S :=
-  { now := 0, actors := [], calls := [], groups := 0, sups := [], sent := [], mreqs := [], fwdlog := [] }
+  { now := 0, actors := [], calls := [], groups := 0, sups := [], sent := [], mreqs := [], fwdlog := [],
+    mresults := [] }
 
 /-- what the callee's handler does with a dequeued call -/
 inductive Act where
@@ -180,6 +187,16 @@ def newFwdFrom (acc : Nat → Bool) (g : Call → Call) : Nat → List Call → 
      | none, some (.success v), some f => [(off, f, v, acc f)]
      | _, _, _ => []) ++ newFwdFrom acc g (off + 1) rest
 
+/-- The members completing in one `resolve` write their results through their threaded index:
+`results[slot] = r` (in the order the join-set yields them — here port order; the slots of a group
+are distinct, so the order does not matter: `Lemmas/RpcResults`). -/
+def writeFrom (f : Call → Call) : List (List (Option Res)) → List Call → List (List (Option Res))
+  | M, [] => M
+  | M, b :: rest =>
+    writeFrom f (match b.res, (f b).res, b.group with
+      | none, some r, some g => M.modify g (fun v => v.set b.slot (some r))
+      | _, _, _ => M) rest
+
 def acceptingIn (actors : List Actor) (a : Nat) : Bool :=
   match actors[a]? with
   | some x => x.alive && !x.draining
@@ -190,7 +207,8 @@ amounts to once `rx = p` is known (`Lemmas: resolve_eq_local`) -/
 def resolveLocal (s : S) : S :=
   let calls' := s.calls.map (resolveCall s.now)
   { s with calls := calls', actors := deliverForwards s.calls calls' s.actors,
-           fwdlog := s.fwdlog ++ newFwdFrom (acceptingIn s.actors) (resolveCall s.now) 0 s.calls }
+           fwdlog := s.fwdlog ++ newFwdFrom (acceptingIn s.actors) (resolveCall s.now) 0 s.calls,
+           mresults := writeFrom (resolveCall s.now) s.mresults s.calls }
 
 /-- state of the channel of port `q`, as its receiver sees it -/
 def portLoc (calls : List Call) (q : Nat) : Loc :=
@@ -214,7 +232,8 @@ def resolveVia (now : Nat) (calls : List Call) (c : Call) : Call :=
 def resolve (s : S) : S :=
   let calls' := s.calls.map (resolveVia s.now s.calls)
   { s with calls := calls', actors := deliverForwards s.calls calls' s.actors,
-           fwdlog := s.fwdlog ++ newFwdFrom (acceptingIn s.actors) (resolveVia s.now s.calls) 0 s.calls }
+           fwdlog := s.fwdlog ++ newFwdFrom (acceptingIn s.actors) (resolveVia s.now s.calls) 0 s.calls,
+           mresults := writeFrom (resolveVia s.now s.calls) s.mresults s.calls }
 
 /-- drop every port located in `a`'s mailbox or held by `a` -/
 def dropPortsOf (a : Nat) (c : Call) : Call :=
@@ -301,11 +320,15 @@ def supExit (s : S) (u : Nat) : S :=
 def sendCall (s : S) (a : Nat) (timeout group forward : Option Nat) : S × Bool :=
   let p := s.calls.length
   let dl := timeout.map (· + s.now)
+  -- the enumerate index of a multi_call member = how many members of its group were sent before it
+  let slot := match group with
+    | some g => (s.calls.filter (fun c => c.group == some g)).length
+    | none => 0
   if accepting s a then
-    ({ s with calls := s.calls ++ [⟨a, dl, .mailbox a, none, group, forward, p⟩],
+    ({ s with calls := s.calls ++ [⟨a, dl, .mailbox a, none, group, forward, p, slot⟩],
               actors := s.actors.modify a (fun x => { x with mailbox := x.mailbox ++ [.call p] }) }, true)
   else
-    ({ s with calls := s.calls ++ [⟨a, dl, .dropped, some .sendErr, group, forward, p⟩] }, false)
+    ({ s with calls := s.calls ++ [⟨a, dl, .dropped, some .sendErr, group, forward, p, slot⟩] }, false)
 
 /-- `multi_call`: send in order, stop at the first failing send and abandon the ports already sent. -/
 def sendMulti (s : S) (g : Nat) (timeout : Option Nat) : List Nat → S
@@ -360,7 +383,10 @@ def handleCore (s : S) (a : Nat) (act : Act) : S :=
 def stepCore (s : S) : Op → S
   | .spawn => { s with actors := s.actors ++ [{ alive := true, draining := false, mailbox := [], received := [], sup := none }] }
   | .call a t => (sendCall s a t none none).1
-  | .mcall as t => { sendMulti s s.groups t as with groups := s.groups + 1, mreqs := s.mreqs ++ [as] }
+  | .mcall as t =>
+    let s' := sendMulti s s.groups t as
+    { s' with groups := s.groups + 1, mreqs := s.mreqs ++ [as],
+              mresults := s.mresults ++ [List.replicate (s'.calls.filter (fun c => c.group == some s.groups)).length none] }
   | .fcall a f t => (sendCall s a t none (some f)).1
   | .handle a act => handleCore s a act
   | .later p act =>
